@@ -1,4 +1,5 @@
 import Lean  -- WORKAROUND only: checks/common.py's audit snippet uses `CoreM`/`collectAxioms` without importing Lean; nothing below uses it
+import HqModel.Props.C17Query
 import HqModel.Lemmas.AutoAllocTick
 import HqModel.Lemmas.AutoAllocPermit
 /-!
